@@ -48,10 +48,10 @@ func (s *refSnapshot) margin(sum *big.Int) *big.Int {
 type marginClass int
 
 const (
-	mcFarBelow marginClass = iota
-	mcOneShort             // adding a single share unit would reach two thirds
-	mcExact                // exactly two thirds
-	mcJustAbove            // removing a single share unit would drop below
+	mcFarBelow  marginClass = iota
+	mcOneShort              // adding a single share unit would reach two thirds
+	mcExact                 // exactly two thirds
+	mcJustAbove             // removing a single share unit would drop below
 	mcFarAbove
 )
 
